@@ -402,4 +402,13 @@ PROPS['C13'].update({
 })
 PROPS['C14']['units'] += ['definitions.__init__', 'definitions.__eq__', 'definitions.objects', 'definitions.properties', 'definitions.bools', 'lemma.fresh_equal']
 
+_STD = ['stdlib.Set.__sub__.unique', 'stdlib.Set.__sub__.sequence', 'stdlib.Set.__and__.unique', 'stdlib.MutableSet.__iand__.unique',
+        'stdlib.MutableSet.__iand__.sequence']
+PROPS['C13']['units'] += _STD
+PROPS['C14']['units'] += _STD
+PROPS['C13']['bounded_part'] = 'aliased calls (d |= d), comparison with a plain triple, replay'
+PROPS['C13']['level_note'] = ('Assumes the list/set builtin contracts (algebraic SEQ theory, validated against CPython and restated with proofs in lemmas/Seq.lean), A-HEAP, '
+                              'the hand transcription SMT <-> Lean of the list lemmas, and other is not self for the binary operations. The stdlib Set/MutableSet mixins '
+                              'used by tools.Unique (remove, __ior__, __iand__, __and__, __sub__) are verified from the interpreter\'s own source.')
+
 NOT_APPLICABLE = {}
